@@ -485,7 +485,42 @@ def behaviour_check(ctx, pid):
             grammars.append((g, s, x))
     res.extra['first_maps_compared'] = nfm
     res.extra['first_map_probe_grammars'] = len(probes)
-    inputs = [inputs_for(ctx, g, ctx.n(12, 60), ctx.n(20, 120), ctx.n(8, 60), exhaustive_len=ctx.n(3, 6)) for g, _, _ in grammars]
+    # automata of more than 256 states (state numbers beyond one byte): accepted small grammars glued together.  The extracted
+    # model and the Coq validator need minutes at that size: these run against the Earley / canonical LR(1) oracles only.
+    big = set()
+    pool = [h for h, _, _ in accepted_grammars(ctx, ctx.n(40, 200), behaviour=True, max_nts=3, max_terms=3, adversarial=0.0, name_relations=0.0,
+                                               many_terminals=0.0, letterless=0.0, motifs=0.2)]
+    for _ in range(ctx.n(2, 12)):
+        if len(pool) < 3:
+            break
+        h = gen.join_grammars(ctx.rng, [ctx.rng.choice(pool) for _ in range(ctx.rng.choice([32, 40, 48]))])
+        h.tenum_attrs = ['#[derive(Debug)]']
+        for nt in h.nts:
+            if not nt['attrs']:
+                nt['attrs'] = ['#[derive(Debug)]']
+        s = gen.render(ctx.rng, h, 'plain')
+        x = vlib.run_rust('gen', checks.hex_lines([s]))[0]
+        if x.startswith('Ok(x'):
+            big.add(len(grammars))
+            grammars.append((h, s, x))
+        elif pid == 'C01':
+            # the parts are accepted and share no name: the whole is LALR(1) and must get its parser
+            res.failures.append(dict(kind='no-parser-for-a-join-of-accepted-grammars', src=s, input=[], impl=short(x, 120), expected='Ok(..)'))
+    for _ in range(ctx.n(1, 4)):
+        h = gen.many_symbols_grammar(ctx.rng, behaviour=True)
+        s = gen.render(ctx.rng, h, 'plain')
+        x = vlib.run_rust('gen', checks.hex_lines([s]))[0]
+        if x.startswith('Ok(x'):
+            big.add(len(grammars))
+            grammars.append((h, s, x))
+        elif pid == 'C01':
+            res.failures.append(dict(kind='no-parser-for-a-conflict-free-grammar', src=s, input=[], impl=short(x, 120), expected='Ok(..)'))
+    res.extra['grammars_with_more_than_256_states'] = len(big)
+    # a big joined grammar: several sentences through every part (an error in two of its 300 states shows only there)
+    inputs = [inputs_for(ctx, g, 300, 150, 20, exhaustive_len=1) if k in big else
+              inputs_for(ctx, g, ctx.n(12, 60), ctx.n(20, 120), ctx.n(8, 60), exhaustive_len=ctx.n(3, 6))
+              for k, (g, _, _) in enumerate(grammars)]
+    grammars_all = list(grammars)
     srcs = [s for _, s, _ in grammars]
     # implementation: compile the real emitted text and run it
     key = hashlib.sha256(('%s/%s/%d/%s' % (vlib.repo_hash(), ctx.tier, ctx.seed, 'beh')).encode()).hexdigest()[:12]
@@ -513,13 +548,19 @@ def behaviour_check(ctx, pid):
         res.failures.append(dict(kind='iterator-polled-after-None-or-timeout', src='', impl=table['flag'], expected='no poll after None'))
     # model: the Coq driver over the model's table of the same source
     mlines = ['%s |%s' % (vlib.cps(s), ';'.join(' '.join(map(str, w)) for w in ws)) for s, ws in zip(srcs, inputs)]
-    m = vlib.run_model('run', mlines) if ctx.model_ok else [None] * len(srcs)
+    m = [None] * len(srcs)
+    # `big` is by position in the ORIGINAL list; modules that did not compile were dropped above, so go by source text
+    bigsrc = {s0 for k, (_, s0, _) in enumerate(grammars_all) if k in big}
+    if ctx.model_ok:
+        small = [k for k, s0 in enumerate(srcs) if s0 not in bigsrc]
+        for k, y in zip(small, vlib.run_model('run', [mlines[k] for k in small])):
+            m[k] = y
     mt = vlib.run_rust('mt', checks.hex_lines(srcs))
     hist = {}
     entries = []
     for i, (g, s, x) in enumerate(grammars):
         parsed_i = oracles.parse_mt(mt[i])
-        if parsed_i is not None and not parsed_i['conflict']:
+        if parsed_i is not None and not parsed_i['conflict'] and s not in bigsrc:
             entries.append((i, parsed_i, decode_ok(x)))
     nval, badval, vlog = validate_real_tables(pid, entries)
     res.extra['real_tables_validated_in_coq'] = nval
@@ -527,7 +568,7 @@ def behaviour_check(ctx, pid):
     checked = 0
     for i, ((g, s, x), ws) in enumerate(zip(grammars, inputs)):
         parsed = oracles.parse_mt(mt[i])
-        ref = oracles.lalr_reference(parsed['file'], max_states=300) if parsed else None
+        ref = oracles.lalr_reference(parsed['file'], max_states=(3000 if s in bigsrc else 300)) if parsed else None
         if ref is not None:
             ref['startname'] = g.start
         pruned, productive = oracles.prune_unproductive(rules_of(g))
